@@ -212,12 +212,13 @@ def ld_table():
 
 def ld_fmod_table():
     """long double operands for fmod / remainder: (cls, sign, mantissa, exponent) like ld_table; moderate exponent
-    gaps (the extracted model walks one binade per iteration)"""
+    gaps only (the extracted model and the constant evaluator walk one binade per iteration; subnormal long doubles
+    against normal ones would be 16000 iterations on 16000-bit integers per case)"""
     v = []
     for s in (0, 1):
         v += [(0, s, 0, 0), (2, s, 0, 0)]
         for m, e in [(5, 0), (3, 0), (1, 0), (1, -1), (11, -1), (7, -2), ((1 << 64) - 1, 0), ((1 << 64) - 1, -30), ((1 << 63) + 1, -63),
-                     (1, 64), (3, 40), (0x123456789ABCDEF1, -70), (1, -16445), (3, -16445), (5, -16444)]:
+                     (1, 64), (3, 40), (0x123456789ABCDEF1, -70), (1, -130), (3, -130)]:
             v.append((1, s, m, e))
     return v
 
